@@ -238,6 +238,16 @@ namespace hist
         {
             return 0;
         } // returns bitmask of (<,<=,==,!=,>=,>) results
+        // C16: number of stale markers kept / "is stale marker i above the current top?" / unwind to it
+        virtual size_t stale_markers()
+        {
+            return 0;
+        }
+        virtual bool stale_above_top(size_t)
+        {
+            return false;
+        }
+        virtual void unwind_stale(size_t) {}
         virtual bool next_iteration()
         {
             return false;
